@@ -793,6 +793,9 @@ func (r *decoder) decode(d *desc) (val, error) {
 	case kString, kBytes:
 		n, err := r.length()
 		if err != nil {
+			if errors.Is(err, errShortInside) {
+				r.overlong = 1 << 62 // the length prefix itself is cut short: a zero-filling decoder sees any length
+			}
 			return val{}, err
 		}
 		b, err := r.take(n, true)
